@@ -37,9 +37,14 @@ func astutilPath() string {
 }
 
 func applyStmt(s ast.Stmt, where string) string {
-	// astutil (x/tools v0.1.12) reaches type parameters through its typeparams shim
+	// astutil (x/tools v0.1.12) reaches type parameters through its typeparams shim, under a nil check:
+	// no callback is made for a nil list
 	if m := tparamsRe.FindStringSubmatch(src(s)); m != nil {
-		return fmt.Sprintf("AOne %s %s", q("TypeParams"), q("TypeParams"))
+		return fmt.Sprintf("AOneG %s %s", q("TypeParams"), q("TypeParams"))
+	}
+	// if n.F != nil { a.apply(n, "F", nil, n.F) }
+	if m := guardedApplyRe.FindStringSubmatch(strings.Join(strings.Fields(src(s)), " ")); m != nil && m[1] == m[3] {
+		return fmt.Sprintf("AOneG %s %s", q(m[2]), q(m[3]))
 	}
 	if es, ok := s.(*ast.ExprStmt); ok {
 		if c, ok := es.X.(*ast.CallExpr); ok {
@@ -60,6 +65,8 @@ func applyStmt(s ast.Stmt, where string) string {
 	noteUnknown(where, src(s))
 	return "AUnknown " + q(src(s))
 }
+
+var guardedApplyRe = regexp.MustCompile(`^if n\.(\w+) != nil \{ a\.apply\(n, "(\w+)", nil, n\.(\w+)\) \}$`)
 
 var tparamsRe = regexp.MustCompile(`^if tparams := typeparams\.For(FuncType|TypeSpec)\(n\); tparams != nil \{ a\.apply\(n, "TypeParams", nil, tparams\) \}$`)
 
